@@ -328,13 +328,13 @@ package wire
 //@   ensures [C12] !ig.discard ==> OUTEV[&ig.g.buf][old(OUTLEN[&ig.g.buf])] == ev("\t%s", lname) && OUTEV[&ig.g.buf][old(OUTLEN[&ig.g.buf]) + 1] == ev(" := ")
 //@   ensures [C12] !ig.discard && (c.out is *types.Pointer) ==> OUTEV[&ig.g.buf][old(OUTLEN[&ig.g.buf]) + 2] == ev("&")
 //@   ensures [C12] !ig.discard ==> evfmt(OUTEV[&ig.g.buf][old(OUTLEN[&ig.g.buf]) + 2 + ((c.out is *types.Pointer) ? 1 : 0)]) == "%s{\n"
-//@   ensures [C12] !ig.discard ==> forall k :: 0 <= k && k < len(c.args) ==> OUTEV[&ig.g.buf][old(OUTLEN[&ig.g.buf]) + 3 + ((c.out is *types.Pointer) ? 1 : 0) + 3 * k] == ev("\t\t%s: ", c.fieldNames[k]) && OUTEV[&ig.g.buf][old(OUTLEN[&ig.g.buf]) + 4 + ((c.out is *types.Pointer) ? 1 : 0) + 3 * k] == ev("%s", slotName(ig, c.args[k])) && OUTEV[&ig.g.buf][old(OUTLEN[&ig.g.buf]) + 5 + ((c.out is *types.Pointer) ? 1 : 0) + 3 * k] == ev(",\n")
+//@   ensures [C12] !ig.discard ==> forall k :: 0 <= k && k < len(c.args) ==> OUTEV[&ig.g.buf][pos3(old(OUTLEN[&ig.g.buf]) + 3 + ((c.out is *types.Pointer) ? 1 : 0), k)] == ev("\t\t%s: ", c.fieldNames[k]) && OUTEV[&ig.g.buf][pos3(old(OUTLEN[&ig.g.buf]) + 4 + ((c.out is *types.Pointer) ? 1 : 0), k)] == ev("%s", slotName(ig, c.args[k])) && OUTEV[&ig.g.buf][pos3(old(OUTLEN[&ig.g.buf]) + 5 + ((c.out is *types.Pointer) ? 1 : 0), k)] == ev(",\n")
 //@   ensures [C12] !ig.discard ==> OUTEV[&ig.g.buf][OUTLEN[&ig.g.buf] - 1] == ev("\t}\n")
 //@   loop 1 invariant [C12] !ig.discard ==> OUTLEN[&ig.g.buf] == old(OUTLEN[&ig.g.buf]) + 3 + ((c.out is *types.Pointer) ? 1 : 0) + 3 * done
 //@   loop 1 invariant [C12] !ig.discard ==> OUTEV[&ig.g.buf][old(OUTLEN[&ig.g.buf])] == ev("\t%s", lname) && OUTEV[&ig.g.buf][old(OUTLEN[&ig.g.buf]) + 1] == ev(" := ")
 //@   loop 1 invariant [C12] !ig.discard && (c.out is *types.Pointer) ==> OUTEV[&ig.g.buf][old(OUTLEN[&ig.g.buf]) + 2] == ev("&")
 //@   loop 1 invariant [C12] !ig.discard ==> evfmt(OUTEV[&ig.g.buf][old(OUTLEN[&ig.g.buf]) + 2 + ((c.out is *types.Pointer) ? 1 : 0)]) == "%s{\n"
-//@   loop 1 invariant [C12] !ig.discard ==> forall k :: 0 <= k && k < done ==> OUTEV[&ig.g.buf][old(OUTLEN[&ig.g.buf]) + 3 + ((c.out is *types.Pointer) ? 1 : 0) + 3 * k] == ev("\t\t%s: ", c.fieldNames[k]) && OUTEV[&ig.g.buf][old(OUTLEN[&ig.g.buf]) + 4 + ((c.out is *types.Pointer) ? 1 : 0) + 3 * k] == ev("%s", slotName(ig, c.args[k])) && OUTEV[&ig.g.buf][old(OUTLEN[&ig.g.buf]) + 5 + ((c.out is *types.Pointer) ? 1 : 0) + 3 * k] == ev(",\n")
+//@   loop 1 invariant [C12] !ig.discard ==> forall k :: 0 <= k && k < done ==> OUTEV[&ig.g.buf][pos3(old(OUTLEN[&ig.g.buf]) + 3 + ((c.out is *types.Pointer) ? 1 : 0), k)] == ev("\t\t%s: ", c.fieldNames[k]) && OUTEV[&ig.g.buf][pos3(old(OUTLEN[&ig.g.buf]) + 4 + ((c.out is *types.Pointer) ? 1 : 0), k)] == ev("%s", slotName(ig, c.args[k])) && OUTEV[&ig.g.buf][pos3(old(OUTLEN[&ig.g.buf]) + 5 + ((c.out is *types.Pointer) ? 1 : 0), k)] == ev(",\n")
 //@ func (*injectorGen).valueExpr
 //@   ensures [C01] OUTLEN[&ig.g.buf] >= old(OUTLEN[&ig.g.buf]) && forall k :: k < old(OUTLEN[&ig.g.buf]) ==> OUTEV[&ig.g.buf][k] == old(OUTEV[&ig.g.buf][k])
 //@   modifies OUTLEN[&ig.g.buf], OUTEV[&ig.g.buf]
@@ -351,19 +351,23 @@ package wire
 
 // C01: the emitted function header repeats the template: `func <name>(`, one `<param name> <type>`
 // event per parameter in order (`...` form exactly for the last parameter of a variadic template),
-// then the result list of the template's shape (value / +cleanup / +error).
+// separated by `, `, then the result list of the template's shape (value / +cleanup / +error).
 //@ define paramEv(e event, pname string, variadic bool) = evn(e) == 2 && eva(e, 0) == box(pname) && evfmt(e) == (variadic ? "%s ...%s" : "%s %s")
 //@ define sigLine(e event, sig *types.Signature) = evn(e) == 1 && evfmt(e) == (sigCleanup(sig) ? (sigErr(sig) ? ") (%s, func(), error) {\n" : ") (%s, func()) {\n") : (sigErr(sig) ? ") (%s, error) {\n" : ") %s {\n"))
 //@ func injectPass
+//@   ensures [C01] !ig.discard ==> forall j :: 1 <= j && j < sig.Params().Len() ==> OUTEV[&ig.g.buf][pos2((old(OUTLEN[&ig.g.buf]) + (doc != nil ? len(doc.List) : 0)), j)] == ev(", ")
+//@   loop 2 invariant [C01] !ig.discard ==> forall j :: 1 <= j && j < i ==> OUTEV[&ig.g.buf][pos2((old(OUTLEN[&ig.g.buf]) + (doc != nil ? len(doc.List) : 0)), j)] == ev(", ")
+//@   loop 3 invariant [C01] !ig.discard ==> forall j :: 1 <= j && j < sig.Params().Len() ==> OUTEV[&ig.g.buf][pos2((old(OUTLEN[&ig.g.buf]) + (doc != nil ? len(doc.List) : 0)), j)] == ev(", ")
+//@   loop 4 invariant [C01] !ig.discard ==> forall j :: 1 <= j && j < sig.Params().Len() ==> OUTEV[&ig.g.buf][pos2((old(OUTLEN[&ig.g.buf]) + (doc != nil ? len(doc.List) : 0)), j)] == ev(", ")
 //@   ensures [C01] !ig.discard ==> OUTLEN[&ig.g.buf] > (sig.Params().Len() == 0 ? (old(OUTLEN[&ig.g.buf]) + (doc != nil ? len(doc.List) : 0)) + 1 : (old(OUTLEN[&ig.g.buf]) + (doc != nil ? len(doc.List) : 0)) + 2 * sig.Params().Len()) && OUTEV[&ig.g.buf][(old(OUTLEN[&ig.g.buf]) + (doc != nil ? len(doc.List) : 0))] == ev("func %s(", name) && sigLine(OUTEV[&ig.g.buf][(sig.Params().Len() == 0 ? (old(OUTLEN[&ig.g.buf]) + (doc != nil ? len(doc.List) : 0)) + 1 : (old(OUTLEN[&ig.g.buf]) + (doc != nil ? len(doc.List) : 0)) + 2 * sig.Params().Len())], sig)
-//@   ensures [C01] !ig.discard ==> forall j :: 0 <= j && j < sig.Params().Len() ==> paramEv(OUTEV[&ig.g.buf][(old(OUTLEN[&ig.g.buf]) + (doc != nil ? len(doc.List) : 0)) + 1 + 2 * j], ig.paramNames[j], sig.Variadic() && j == sig.Params().Len() - 1)
+//@   ensures [C01] !ig.discard ==> forall j :: 0 <= j && j < sig.Params().Len() ==> paramEv(OUTEV[&ig.g.buf][pos2((old(OUTLEN[&ig.g.buf]) + (doc != nil ? len(doc.List) : 0)) + 1, j)], ig.paramNames[j], sig.Variadic() && j == sig.Params().Len() - 1)
 //@   loop 1 invariant [C01] !ig.discard ==> OUTLEN[&ig.g.buf] == old(OUTLEN[&ig.g.buf]) + done
 //@   loop 2 invariant [C01] !ig.discard ==> OUTLEN[&ig.g.buf] == (i == 0 ? (old(OUTLEN[&ig.g.buf]) + (doc != nil ? len(doc.List) : 0)) + 1 : (old(OUTLEN[&ig.g.buf]) + (doc != nil ? len(doc.List) : 0)) + 2 * i) && OUTEV[&ig.g.buf][(old(OUTLEN[&ig.g.buf]) + (doc != nil ? len(doc.List) : 0))] == ev("func %s(", name)
-//@   loop 2 invariant [C01] !ig.discard ==> forall j :: 0 <= j && j < i ==> paramEv(OUTEV[&ig.g.buf][(old(OUTLEN[&ig.g.buf]) + (doc != nil ? len(doc.List) : 0)) + 1 + 2 * j], ig.paramNames[j], sig.Variadic() && j == sig.Params().Len() - 1)
+//@   loop 2 invariant [C01] !ig.discard ==> forall j :: 0 <= j && j < i ==> paramEv(OUTEV[&ig.g.buf][pos2((old(OUTLEN[&ig.g.buf]) + (doc != nil ? len(doc.List) : 0)) + 1, j)], ig.paramNames[j], sig.Variadic() && j == sig.Params().Len() - 1)
 //@   loop 3 invariant [C01] !ig.discard ==> OUTLEN[&ig.g.buf] > (sig.Params().Len() == 0 ? (old(OUTLEN[&ig.g.buf]) + (doc != nil ? len(doc.List) : 0)) + 1 : (old(OUTLEN[&ig.g.buf]) + (doc != nil ? len(doc.List) : 0)) + 2 * sig.Params().Len()) && OUTEV[&ig.g.buf][(old(OUTLEN[&ig.g.buf]) + (doc != nil ? len(doc.List) : 0))] == ev("func %s(", name) && sigLine(OUTEV[&ig.g.buf][(sig.Params().Len() == 0 ? (old(OUTLEN[&ig.g.buf]) + (doc != nil ? len(doc.List) : 0)) + 1 : (old(OUTLEN[&ig.g.buf]) + (doc != nil ? len(doc.List) : 0)) + 2 * sig.Params().Len())], sig)
-//@   loop 3 invariant [C01] !ig.discard ==> forall j :: 0 <= j && j < sig.Params().Len() ==> paramEv(OUTEV[&ig.g.buf][(old(OUTLEN[&ig.g.buf]) + (doc != nil ? len(doc.List) : 0)) + 1 + 2 * j], ig.paramNames[j], sig.Variadic() && j == sig.Params().Len() - 1)
+//@   loop 3 invariant [C01] !ig.discard ==> forall j :: 0 <= j && j < sig.Params().Len() ==> paramEv(OUTEV[&ig.g.buf][pos2((old(OUTLEN[&ig.g.buf]) + (doc != nil ? len(doc.List) : 0)) + 1, j)], ig.paramNames[j], sig.Variadic() && j == sig.Params().Len() - 1)
 //@   loop 4 invariant [C01] !ig.discard ==> OUTLEN[&ig.g.buf] > (sig.Params().Len() == 0 ? (old(OUTLEN[&ig.g.buf]) + (doc != nil ? len(doc.List) : 0)) + 1 : (old(OUTLEN[&ig.g.buf]) + (doc != nil ? len(doc.List) : 0)) + 2 * sig.Params().Len()) && OUTEV[&ig.g.buf][(old(OUTLEN[&ig.g.buf]) + (doc != nil ? len(doc.List) : 0))] == ev("func %s(", name) && sigLine(OUTEV[&ig.g.buf][(sig.Params().Len() == 0 ? (old(OUTLEN[&ig.g.buf]) + (doc != nil ? len(doc.List) : 0)) + 1 : (old(OUTLEN[&ig.g.buf]) + (doc != nil ? len(doc.List) : 0)) + 2 * sig.Params().Len())], sig)
-//@   loop 4 invariant [C01] !ig.discard ==> forall j :: 0 <= j && j < sig.Params().Len() ==> paramEv(OUTEV[&ig.g.buf][(old(OUTLEN[&ig.g.buf]) + (doc != nil ? len(doc.List) : 0)) + 1 + 2 * j], ig.paramNames[j], sig.Variadic() && j == sig.Params().Len() - 1)
+//@   loop 4 invariant [C01] !ig.discard ==> forall j :: 0 <= j && j < sig.Params().Len() ==> paramEv(OUTEV[&ig.g.buf][pos2((old(OUTLEN[&ig.g.buf]) + (doc != nil ? len(doc.List) : 0)) + 1, j)], ig.paramNames[j], sig.Variadic() && j == sig.Params().Len() - 1)
 //@   nullable doc
 //@   requires okSig(sig) && len(ig.paramNames) == 0 && len(ig.localNames) == 0 && len(ig.cleanupNames) == 0
 //@   requires wfCalls(calls, sig.Params().Len())
